@@ -182,15 +182,12 @@ func (dw *DiskWriter) HandleChange(kind ChangeKind, p string, fi os.FileInfo, er
 			return errors.Wrapf(err, "failed to create dir %s", newPath)
 		}
 		dw.dirModTimes[destPath] = statCopy.ModTime
-	case fi.Mode()&os.ModeDevice != 0 || fi.Mode()&os.ModeNamedPipe != 0:
-		if err := handleTarTypeBlockCharFifo(newPath, statCopy); err != nil {
-			return errors.Wrapf(err, "failed to create device %s", newPath)
-		}
 	case fi.Mode()&os.ModeSymlink != 0:
 		if err := os.Symlink(statCopy.Linkname, newPath); err != nil {
 			return errors.Wrapf(err, "failed to symlink %s", newPath)
 		}
 	case statCopy.Linkname != "":
+		// (a further name of a fifo or device node is a hard link like any other)
 		linkSrc := filepath.Join(dw.dest, statCopy.Linkname)
 		// The link source is normally a file this transfer has written. With a
 		// filter or a metadata-only selector that skipped it, an old symlink may
@@ -200,6 +197,10 @@ func (dw *DiskWriter) HandleChange(kind ChangeKind, p string, fi os.FileInfo, er
 		}
 		if err := os.Link(linkSrc, newPath); err != nil {
 			return errors.Wrapf(err, "failed to link %s to %s", newPath, statCopy.Linkname)
+		}
+	case fi.Mode()&os.ModeDevice != 0 || fi.Mode()&os.ModeNamedPipe != 0:
+		if err := handleTarTypeBlockCharFifo(newPath, statCopy); err != nil {
+			return errors.Wrapf(err, "failed to create device %s", newPath)
 		}
 	default:
 		isRegularFile = true
